@@ -306,6 +306,99 @@ def stage_race(ctx, e):
             ctx.violation("race:" + p[:40], p, {"kind": "race", "workers": nw, "schedule": schedule})
 
 
+def stage_hsm_import(ctx):
+    """imports on a Lustre-HSM node, where the import task parks itself while the file is restored from tape: whatever
+    happens to the file during the wait (a writer locks it, rewrites it, removes it, replaces it by a symlink) is judged when
+    the task resumes - a file locked at that moment stays pending and nothing half-written is registered"""
+    import itertools
+    import json
+    import pathlib
+    import shutil
+    import fakelfs
+    import alpenhorn.daemon.update as upd
+    from alpenhorn.daemon import auto_import
+    from alpenhorn.scheduler import FairMultiFIFOQueue
+    with envmod.Env() as e:
+        for during, via_req, unlock_later in itertools.product(["nothing", "lock", "lock+rewrite", "remove", "symlink"], [False, True], [False, True]):
+            w = worldmod.World(e)
+            db = w.db
+            for m in (db.StorageTransferAction, db.ArchiveFileCopyRequest, db.ArchiveFileImportRequest, db.ArchiveFileCopy,
+                      db.ArchiveFile, db.ArchiveAcq, db.StorageNode, db.StorageGroup):
+                m.delete().execute()
+            shutil.rmtree(os.path.join(e.tmp, "roots"), ignore_errors=True)
+            g = w.group("ghsm")
+            cfg = json.dumps({"quota_id": "q", "quota_type": "group", "headroom": 10, "lfs": os.path.join(common.VERIF, "fake-tools", "lfs"),
+                              "restore_wait": 5, "release_check_count": 5})
+            node = w.node("nh", g, io_class="LustreHSM", io_config=cfg)
+            p = os.path.join(node.root, "acq", "data.dat")
+            os.makedirs(os.path.dirname(p), exist_ok=True)
+            good = b"complete content of the file"
+            with open(p, "wb") as fh:
+                fh.write(good)
+            st_file = os.path.join(e.tmp, "lfs_state.json")
+            with open(st_file, "w") as fh:
+                json.dump({"paths": {p: "released"}}, fh)
+            undo = fakelfs.install(st_file)
+            verif_idext.MODE[:] = ["first", 1]
+            e.set_host("h1")
+            q = FairMultiFIFOQueue()
+            un = upd.UpdateableNode(q, db.StorageNode.get(id=node.id))
+            req = db.ArchiveFileImportRequest.create(node=node, path="acq/data.dat", recurse=False, register=True) if via_req else None
+            log = []
+
+            def run_queued():
+                item = q.get(timeout=0.001)
+                n_ = 0
+                while item is not None and n_ < 10:
+                    item[0](); q.task_done(item[1]); n_ += 1
+                    item = q.get(timeout=0.001)
+            try:
+                auto_import.import_file(un, q, pathlib.PurePath("acq/data.dat"), True, req)
+                run_queued()                                     # first segment: not resident -> restore requested, task parks itself
+                log.append(f"after first segment: deferred={q.deferred_size}")
+                lock = os.path.join(node.root, "acq", ".data.dat.lock")
+                if during.startswith("lock"):
+                    open(lock, "wb").close()
+                    if during == "lock+rewrite":
+                        with open(p, "wb") as fh:
+                            fh.write(b"half")
+                elif during == "remove":
+                    os.remove(p)
+                elif during == "symlink":
+                    os.remove(p)
+                    os.symlink(os.path.join(node.root, "ALPENHORN_NODE"), p)
+                with open(st_file, "w") as fh:                    # the tape system has restored the file meanwhile
+                    json.dump({"paths": {p: "restored"}}, fh)
+                q._deferrals = [(k * 1e-9, *d[1:]) for k, d in enumerate(q._deferrals)]
+                run_queued()
+                files = [(f.name, f.size_b) for f in db.ArchiveFile.select()]
+                ctx.count(f"hsm-import:{during}")
+                ctx.case(("hsm-import", during, via_req, unlock_later), nontrivial=True,
+                         sample={"during_the_wait": during, "registered": files} if during == "lock" and via_req and not unlock_later else None)
+                if during != "nothing" and files:
+                    ctx.violation(f"hsm-import:{during}", f"import on an HSM node: during the restore wait the file was changed ({during}); when the "
+                                  f"task resumed it registered {files}" + (" although the lock file exists" if during.startswith("lock") else ""),
+                                  {"kind": "hsm-import", "during": during, "via_request": via_req})
+                if during == "nothing" and files != [("data.dat", len(good))]:
+                    ctx.violation("hsm-import:lost", f"import on an HSM node after the restore wait registered {files}", {"kind": "hsm-import"})
+                if during.startswith("lock") and via_req and db.ArchiveFileImportRequest.get(id=req.id).completed:
+                    ctx.violation("hsm-import:lock-completes-request", "the import request of a locked file was completed",
+                                  {"kind": "hsm-import", "during": during})
+                if during == "lock" and unlock_later:
+                    # the writer finishes: lock removed -> the next attempt imports the complete file
+                    os.remove(lock)
+                    auto_import.import_file(un, q, pathlib.PurePath("acq/data.dat"), True, req)
+                    run_queued()
+                    files = [(f.name, f.size_b) for f in db.ArchiveFile.select()]
+                    if files != [("data.dat", len(good))]:
+                        ctx.violation("hsm-import:after-unlock", f"after the lock was removed the import registered {files}", {"kind": "hsm-import"})
+            except Exception as ex:  # noqa
+                ctx.violation("hsm-import:raised", f"import on an HSM node raised {type(ex).__name__}: {ex} (during the wait: {during})",
+                              {"kind": "hsm-import", "during": during})
+            finally:
+                undo()
+
+
 def run(ctx):
     ok = common.proof_stage(ctx, MODULE)
     rng = ctx.rng
@@ -331,6 +424,7 @@ def run(ctx):
             ctx.corr_broken.append({"stream": "import-request-completion", "case": meta, "model": out, "real_completed": real["completed"]})
     with envmod.Env(dbfile=True) as e2:
         stage_race(ctx, e2)
+    stage_hsm_import(ctx)
     ctx.coverage["rule"] = ("a fixed adversarial tree per case (regular files incl. nested and dot-directories, dot-files, lock file, placeholder, "
                             "symlinks to inside/outside files, symlinked directories to inside/outside, a directory, the marker, an absent "
                             "path) x request form (import request rel/abs/dotted/non-canonical, watchdog-style absolute event incl. outside "
